@@ -4,5 +4,5 @@ c=$1; shift
 cd /repo && git diff --quiet || { echo "repo dirty"; exit 3; }
 git show $c -- tempest | git apply -R || { echo "reverse apply failed"; exit 3; }
 git diff --stat | tail -1
-for k in "$@"; do (cd /verif && VERIF_EVIDENCE_DIR=/tmp/verif_mutant_evidence ./check $k 2>&1 | grep -E "VIOLATION|KNOWN|^\[|HARNESS|key=" | head -6); done
+for k in "$@"; do (cd /verif && VERIF_EVIDENCE_DIR=/tmp/verif_mutant_evidence ./check $k 2>&1 | grep -E "VIOLATION|KNOWN|^\[|HARNESS|key=" | head -12); done
 git -C /repo checkout -- .
